@@ -42,6 +42,13 @@ type Environment struct {
 	// removing it on exit.
 	local []map[string]object.Object
 
+	// frames records, for every call of a user-defined function which
+	// is in progress, where in `local` the scopes of that call begin.
+	//
+	// A function sees its own scopes and the globals: the parameters,
+	// locals and loop-variables of whoever called it are not its own.
+	frames []int
+
 	// functions holds golang function pointers, as set by
 	// by the host-application.
 	//
@@ -150,10 +157,11 @@ func (e *Environment) isLocal(name string) (object.Object, bool) {
 	//
 	// The order we search here is very important:
 	//
-	// We MUST look at the most-recent scopes before the older ones.
+	// We MUST look at the most-recent scopes before the older ones,
+	// and stop where the scopes of the running function begin.
 	//
 	ln := len(e.local)
-	for ln > 0 {
+	for ln > e.frame() {
 		cur := e.local[ln-1]
 		obj, ok := cur[name]
 		if ok {
@@ -210,6 +218,24 @@ func (e *Environment) AddScope() {
 	e.local = append(e.local, locals)
 }
 
+// AddFunctionScope opens the scope of a call to a user-defined function.
+//
+// Until it is closed again variables are only looked for, and updated,
+// in this scope and the ones opened after it - or globally.
+func (e *Environment) AddFunctionScope() {
+	e.frames = append(e.frames, len(e.local))
+	e.AddScope()
+}
+
+// frame returns the index of the first scope which belongs to the function
+// that is running, or zero if we're outside all functions.
+func (e *Environment) frame() int {
+	if len(e.frames) > 0 {
+		return e.frames[len(e.frames)-1]
+	}
+	return 0
+}
+
 // RemoveScope removes the storage for the most recently added store.
 func (e *Environment) RemoveScope() error {
 
@@ -240,6 +266,11 @@ func (e *Environment) RestoreScopes(depth int) {
 	if depth >= 0 && depth < len(e.local) {
 		e.local = e.local[:depth]
 	}
+
+	// The calls whose scopes have just gone are over.
+	for len(e.frames) > 0 && e.frames[len(e.frames)-1] >= len(e.local) {
+		e.frames = e.frames[:len(e.frames)-1]
+	}
 }
 
 // Declare creates a variable in the innermost scope, shadowing any
@@ -267,7 +298,7 @@ func (e *Environment) SetLocal(name string, val object.Object) object.Object {
 		// the scope in which it occurs.
 		//
 		ln := len(e.local)
-		for ln > 0 {
+		for ln > e.frame() {
 			cur := e.local[ln-1]
 			_, ok := cur[name]
 			if ok {
